@@ -2,4 +2,4 @@
 From Coq Require Import Extraction ExtrOcamlBasic.
 Require Import MW.Ledger.Model MW.Ledger.Spec MW.Ledger.Run MW.Ledger.Import MW.Ledger.Remove.
 Extraction "model.ml" xstep xinit_sim xinit xreport game_rows spec_report xprocess import_batch import_start
-  new_wallet wallet_known remove_request remove_phase1 remove_round use_wallet status_of key_owner mentions catchup find_tx.
+  new_wallet wallet_known remove_request remove_phase1 remove_round use_wallet status_of key_owner mentions catchup find_tx repaired as_found.
